@@ -86,6 +86,9 @@ def main(argv=None):
             errors.append((r['unit'], r['case'], r['error']))
         if r['undecided']:
             undecided.append((r['unit'], r['case'], r['undecided']))
+        if not r['error'] and not r['undecided'] and not r['obligations']:
+            # vacuity guard: a unit case that generates no obligation at all (contradictory requires, every path aborted) proves nothing
+            errors.append((r['unit'], r['case'], 'vacuous: unit case generated zero obligations (paths=%s)' % r['paths']))
         for o in r['obligations']:
             if a.pid in tags_of(o['id']) or '*' in tags_of(o['id']):
                 o = dict(o)
@@ -196,6 +199,8 @@ def main(argv=None):
             native = try_native_replay(a.pid, path)
         if not o.get('model') or o.get('no_model') or native is not True:
             tail = ' no-failing-input-found'
+        if o.get('bounded') and str(o.get('solver', '')).startswith('cpython') and o['status'] == 'failed':
+            tail = ''      # a bounded native enumeration fails on a concrete case it ran on the real code (recorded in the replay file)
         print('VIOLATION property=%s replay=%s obligation=%s unit=%s%s' % (a.pid, path, o['id'], o['unit'], tail))
         rc = 1
     seenk = set()
